@@ -41,6 +41,7 @@ CONSTANTS MapOrder,     \* sequence of map ids (strings); MapOrder[1] is the roo
           Builders,     \* maps the program calls __setitem__ / clear on (and adds layers to)
           Receivers,    \* maps the program calls get / [] / get_static_map on
           Phased,       \* BOOLEAN: build the tree first, `Seal`, then only access it
+          Staging,      \* BOOLEAN: resources may be moved out of a staging map into the main tree (see SetItem)
           KindChoices,  \* set of functions [Hd -> Kinds]: what load() returns
           ClsChoices,   \* set of functions [Names -> NameClasses]: lexical class of each name
           ImplicitMapsLinked, ClearAllLayers, SetItemPopsAllLayers, StaticSlotsUnmangled, CacheTestsFlag
@@ -53,11 +54,12 @@ VARIABLES maps, layers, parent, key,          \* ResourceMap tables and back-lin
           ret,                                \* outcome of the last call <<kind, id, serial>>
           loadedNow,                          \* ghost: handles whose load() ran during the last call
           abs,                                \* ghost: the abstract tree, map -> (name -> <<"h"|"m", node>>)
+          stale,                              \* ghost: places <<map, name, node>> a later assignment of node superseded
           loads                               \* ghost: loads since the last clear, per handle
 
 vars == <<maps, layers, parent, key, cached, value, gen, kind, cls, sealed, snapRoot, sslot, sdict, shn,
-          ret, loadedNow, abs, loads>>
-tree == <<maps, layers, parent, key, abs>>
+          ret, loadedNow, abs, stale, loads>>
+tree == <<maps, layers, parent, key, abs, stale>>
 cache == <<cached, value, gen, loads>>
 snap == <<snapRoot, sslot, sdict, shn>>
 fixed == <<kind, cls>>
@@ -95,6 +97,14 @@ Held(n) == HeldIn(maps, layers, n)
 \* keeps back-links of held nodes only (the leniency "unreachable nodes may keep stale links", and 14x fewer states)
 Forget(f, mp, ly) == [n \in Nodes |-> IF HeldIn(mp, ly, n) THEN f[n] ELSE None]
 
+\* every <<map, name>> under which a node is stored (shadowed layers included)
+Places(n) == {pl \in M \X Names :
+                \/ pl[2] \in DOMAIN maps[pl[1]] /\ maps[pl[1]][pl[2]] = n
+                \/ \E i \in DOMAIN layers[pl[1]] : pl[2] \in DOMAIN layers[pl[1]][i] /\ layers[pl[1]][i][pl[2]] = n}
+PlaceIn(mp, ly, t) == \/ t[2] \in DOMAIN mp[t[1]] /\ mp[t[1]][t[2]] = t[3]
+                      \/ \E i \in DOMAIN ly[t[1]] : t[2] \in DOMAIN ly[t[1]][i] /\ ly[t[1]][i][t[2]] = t[3]
+KeepStale(S, mp, ly) == {t \in S : PlaceIn(mp, ly, t)}
+
 RECURSIVE Closure(_, _)
 Closure(S, k) == IF k = 0 THEN S ELSE Closure(S \cup UNION {Range(maps[x]) : x \in S}, k - 1)
 Sub(m) == Closure({m}, Len(MapOrder))        \* m and every map below it
@@ -106,7 +116,7 @@ Init == /\ maps = [m \in M |-> Empty] /\ layers = [m \in M |-> <<Empty>>]
         /\ sealed = FALSE /\ snapRoot = None
         /\ sslot = [m \in M |-> Empty] /\ sdict = [m \in M |-> Empty] /\ shn = [m \in M |-> {}]
         /\ ret = NoRet /\ loadedNow = {}
-        /\ abs = [m \in M |-> Empty] /\ loads = [h \in Hd |-> 0]
+        /\ abs = [m \in M |-> Empty] /\ stale = {} /\ loads = [h \in Hd |-> 0]
 
 Mutable == ~sealed /\ snapRoot = None       \* the tree is not changed once it is sealed / mirrored
 Usable == Phased => sealed
@@ -152,9 +162,16 @@ Walk(t, cur, acur, p, avoid) ==
 
 SetItem(m, p, node) ==
     /\ "set" \in Ops /\ Mutable /\ m \in Builders
-    \* generated domain: the value is an object that is not in any map right now (one parent pointer
-    \* cannot describe two places) and the assignment creates no cycle
-    /\ ~Held(node) /\ node # Root /\ node # m /\ (node \in M => m \notin Sub(node))
+    \* generated domain: the assignment creates no cycle, and the value is an object that is not in any map right
+    \* now (one parent pointer cannot describe two places) — or, with Staging, a direct child of a staging map
+    \* (a root-level map outside the main tree) that is moved into the main tree: it then sits in two maps, its
+    \* back-links follow the latest assignment, the place in the staging map becomes `stale`.  No node is ever
+    \* twice inside one tree: a map with stale places below it is not assigned anywhere.
+    /\ node # Root /\ node # m /\ (node \in M => m \notin Sub(node))
+    /\ \/ ~Held(node)
+       \/ /\ Staging /\ m \in Sub(Root) /\ Cardinality(Places(node)) = 1
+          /\ \A pl \in Places(node) : pl[1] # Root /\ ~Held(pl[1])
+    /\ (node \in M => \A t \in stale : t[1] \notin Sub(node))
     /\ LET w == Walk([mp |-> maps, ly |-> layers, pa |-> parent, ky |-> key, ab |-> abs], m, m, Front(p), {m, node})
            t == w.t
            tg == w.tgt
@@ -167,6 +184,7 @@ SetItem(m, p, node) ==
           /\ parent' = Forget([t.pa EXCEPT ![node] = tg], mp2, ly2)
           /\ key' = Forget([t.ky EXCEPT ![node] = l], mp2, ly2)
           /\ abs' = [t.ab EXCEPT ![w.atgt] = Put(@, l, <<IF node \in M THEN "m" ELSE "h", node>>)]
+          /\ stale' = KeepStale(stale \cup {<<pl[1], pl[2], node>> : pl \in Places(node)}, mp2, ly2)
     /\ ret' = NoRet /\ loadedNow' = {}
     /\ UNCHANGED <<cache, fixed, sealed, snap>>
 
@@ -175,7 +193,7 @@ PushLayer(m) ==
     /\ "push" \in Ops /\ Mutable /\ m \in Builders /\ Len(layers[m]) < MaxLayers
     /\ layers' = [layers EXCEPT ![m] = <<Empty>> \o @]
     /\ ret' = NoRet /\ loadedNow' = {}
-    /\ UNCHANGED <<maps, parent, key, abs, cache, fixed, sealed, snap>>
+    /\ UNCHANGED <<maps, parent, key, abs, stale, cache, fixed, sealed, snap>>
 
 \* ResourceMap.clear: children whose parent is this map are detached, then both tables are emptied
 Clear(m) ==
@@ -189,6 +207,7 @@ Clear(m) ==
           /\ parent' = [n \in Nodes |-> IF n \in gone THEN None ELSE parent[n]]
           /\ key' = [n \in Nodes |-> IF n \in gone THEN None ELSE key[n]]
     /\ abs' = [abs EXCEPT ![m] = Empty]
+    /\ stale' = {t \in stale : t[1] # m}
     /\ ret' = NoRet /\ loadedNow' = {}
     /\ UNCHANGED <<cache, fixed, sealed, snap>>
 
@@ -350,19 +369,26 @@ DefaultIffKeyError == \A m \in M, p \in Paths : (GetDen(m, p) = Absent) <=> (Ite
 HandleXorMap == \A m \in M : DOMAIN Vis(m) \cap DOMAIN maps[m] = {}
 \* ... and it is the one assigned last (whole subtrees replaced)
 LatestWins == \A m \in M, p \in Paths : GetDen(m, p) = AbsDen(m, p)
-\* every node reachable as (m, name) records m and name — implicit maps included
-BackLinks == \A m \in M : /\ \A n \in DOMAIN maps[m] : parent[maps[m][n]] = m /\ key[maps[m][n]] = n
-                          /\ \A n \in DOMAIN Vis(m) : parent[Vis(m)[n]] = m /\ key[Vis(m)[n]] = n
-\* no node is in two places, no cycles through the root (sanity of the generated domain)
-OnePlace == \A n \in Nodes : Cardinality({<<x, k>> \in M \X Names : k \in DOMAIN maps[x] /\ maps[x][k] = n}) +
-                             Cardinality({<<x, i, k>> \in M \X (1..MaxLayers) \X Names :
-                                             i \in DOMAIN layers[x] /\ k \in DOMAIN layers[x][i] /\ layers[x][i][k] = n}) <= 1
+\* every node reachable as (m, name) records m and name — implicit maps included; a place a later assignment
+\* superseded is exempt (the node records the later one) ...
+Linked(m, n, c) == <<m, n, c>> \in stale \/ (parent[c] = m /\ key[c] = n)
+BackLinks == \A m \in M : /\ \A n \in DOMAIN maps[m] : Linked(m, n, maps[m][n])
+                          /\ \A n \in DOMAIN Vis(m) : Linked(m, n, Vis(m)[n])
+\* ... and no place in the main tree ever is
+RootBackLinks == \A m \in Sub(Root) : /\ \A n \in DOMAIN maps[m] : parent[maps[m][n]] = m /\ key[maps[m][n]] = n
+                                      /\ \A n \in DOMAIN Vis(m) : parent[Vis(m)[n]] = m /\ key[Vis(m)[n]] = n
+\* apart from stale places no node is in two places (sanity of the generated domain)
+OnePlace == /\ \A n \in Nodes : Cardinality({pl \in Places(n) : <<pl[1], pl[2], n>> \notin stale}) <= 1
+            /\ \A t \in stale : PlaceIn(maps, layers, t) /\ t[1] \notin Sub(Root)
 \* clear() leaves nothing reachable and detaches the former direct children
 ClearDetaches ==
     [][\A m \in M : Clear(m) =>
          /\ \A p \in Paths : GetDen(m, p)' = Absent /\ ItemDen(m, p)' = Absent
          /\ maps'[m] = Empty /\ \A i \in DOMAIN layers'[m] : layers'[m][i] = Empty
-         /\ \A c \in Range(maps[m]) \cup Range(Vis(m)) : parent'[c] = None /\ key'[c] = None]_vars
+         \* (a child that was moved elsewhere in the meantime is no longer this map's to detach)
+         /\ \A c \in Range(maps[m]) \cup Range(Vis(m)) :
+               IF \E n \in Names : <<m, n, c>> \in stale THEN parent'[c] = parent[c] /\ key'[c] = key[c]
+               ELSE parent'[c] = None /\ key'[c] = None]_vars
 
 \* ---- C12 ----
 AtMostOneLoad == \A h \in Hd : loads[h] <= 1
